@@ -233,6 +233,11 @@ func refSM2Verify(px, py *big.Int, msg, sigDER []byte) (bool, error) {
 	return rr.Cmp(sig.R) == 0, nil
 }
 
+func sm2XY(k key) (*big.Int, *big.Int) {
+	p := k.pub.(*ecdsa.PublicKey)
+	return p.X, p.Y
+}
+
 func hexInt(s string) *big.Int { v, _ := new(big.Int).SetString(s, 16); return v }
 
 // selfTest validates the trusted base of this package: reference SM3, reference
